@@ -28,6 +28,11 @@ fn main() {
                 &args[6],
             );
         }
+        Some("print-child-mt") if args.len() == 7 => {
+            let on = |s: &str| -> Option<usize> { if s == "-" { None } else { s.parse().ok() } };
+            let inp = replay::unhex(&args[2]);
+            gen::print_child_mt(&inp, common::Opts { ecl: on(&args[3]), mode: on(&args[4]), version: on(&args[5]), mask: on(&args[6]) });
+        }
         Some("print-child") if args.len() == 7 => {
             let on = |s: &str| -> Option<usize> { if s == "-" { None } else { s.parse().ok() } };
             let inp = replay::unhex(&args[2]);
